@@ -70,7 +70,8 @@ pub enum SnapshotUrgency {
 impl SnapshotUrgency {
     /// Calculate the urgency for a snapshot based on its age in days
     fn for_days(config: &ServerConfig, days: i64) -> Self {
-        if days >= config.snapshot_days * 3 / 2 {
+        // compare in a wider type: `snapshot_days * 3` overflows i64 for large targets
+        if i128::from(days) >= i128::from(config.snapshot_days) * 3 / 2 {
             SnapshotUrgency::High
         } else if days >= config.snapshot_days {
             SnapshotUrgency::Low
@@ -81,7 +82,8 @@ impl SnapshotUrgency {
 
     /// Calculate the urgency for a snapshot based on its age in versions
     fn for_versions_since(config: &ServerConfig, versions_since: u32) -> Self {
-        if versions_since >= config.snapshot_versions * 3 / 2 {
+        // compare in a wider type: `snapshot_versions * 3` overflows u32 for large targets
+        if u64::from(versions_since) >= u64::from(config.snapshot_versions) * 3 / 2 {
             SnapshotUrgency::High
         } else if versions_since >= config.snapshot_versions {
             SnapshotUrgency::Low
